@@ -10,20 +10,19 @@
 // @sizes log_proofs: cap2=quick cap4=quick cap8=thorough
 #[allow(unused_imports)] use super::*;
 
-#[allow(dead_code)] #[repr(C)]
-pub(crate) struct Mapping<const CAP: usize> { header: MMapContents<u32>, rest: [u32; CAP] }
-
-/// the real `MMapMeta<u32>` over a fake mapping holding `content[0..n)` as published history (capacity CAP)
+/// the real `MMapMeta<u32>` over a fake mapping holding `content[0..n)` as published history (capacity CAP): one zeroed, 8-aligned heap
+/// block that starts with the `MMapContents` header; the slots follow `first_buffer_element` contiguously, exactly as in the mapped file
 #[allow(dead_code)]
 pub(crate) fn fake_topic<const CAP: usize>(n: usize, content: [u32; CAP]) -> Arc<MMapMeta<'static, u32>> {
-    let mapping: &'static mut Mapping<CAP> = Box::leak(Box::new(Mapping {
-        header: MMapContents { publisher_tail: AtomicUsize::new(n), consumer_tail: AtomicUsize::new(n), slice_length: AtomicUsize::new(CAP), first_buffer_element: content[0] },
-        rest: [0; CAP],
-    }));
-    let mut k = 1; while k < CAP { mapping.rest[k - 1] = content[k]; k += 1; }
-    let first = &mut mapping.header.first_buffer_element as *mut u32;
+    let words: &'static mut [[u64; 8]; CAP] = Box::leak(Box::new([[0u64; 8]; CAP]));      // >= 64 bytes: header (32) + CAP slots of 4 bytes, with slack
+    let contents: &'static mut MMapContents<u32> = unsafe { &mut *(words.as_mut_ptr() as *mut MMapContents<u32>) };
+    contents.publisher_tail.store(n, Relaxed);
+    contents.consumer_tail.store(n, Relaxed);
+    contents.slice_length.store(CAP, Relaxed);
+    let first = &mut contents.first_buffer_element as *mut u32;
     let buffer: &'static mut [u32] = unsafe { std::slice::from_raw_parts_mut(first, CAP) };
-    let contents: &'static mut MMapContents<u32> = unsafe { &mut *(&mut mapping.header as *mut MMapContents<u32>) };
+    let mut k = 0; while k < CAP { buffer[k] = content[k]; k += 1; }
+    let contents: &'static mut MMapContents<u32> = unsafe { &mut *(first.cast::<u8>().sub(std::mem::offset_of!(MMapContents<u32>, first_buffer_element)) as *mut MMapContents<u32>) };
     let topic = Arc::new(MMapMeta { mmap_file_path: String::new(), mmap_file: unsafe { std::mem::zeroed() }, mmap_handle: unsafe { std::mem::zeroed() }, mmap_contents: contents, buffer });
     std::mem::forget(Arc::clone(&topic));       // the fake File / MmapMut must never be dropped
     topic
@@ -45,7 +44,7 @@ pub(crate) mod proofs {
     pub(crate) fn noop() {}
 
     // @group log_proofs
-    macro_rules! log_proofs { ($($modname:ident: $cap:expr;)*) => { $( mod $modname {
+    macro_rules! log_proofs { ($($modname:ident: $cap:expr, $unw:expr;)*) => { $( mod $modname {
         use super::*;
         const CAP: usize = $cap;
 
@@ -56,7 +55,7 @@ pub(crate) mod proofs {
         }
 
         // @props C09 C03
-        #[kani::proof] #[kani::unwind(3)] #[kani::stub(std::hint::spin_loop, noop)]
+        #[kani::proof] #[kani::unwind($unw)] #[kani::stub(std::hint::spin_loop, noop)]
         fn publish_appends_one_entry_and_touches_nothing_else() {
             let (t, n, content) = any_topic(true);
             let x: u32 = kani::any();
@@ -73,7 +72,7 @@ pub(crate) mod proofs {
         }
 
         // @props C09 C10
-        #[kani::proof] #[kani::unwind(3)]
+        #[kani::proof] #[kani::unwind($unw)]
         fn subscriptions_start_where_the_statement_says() {
             let (t, n, _content) = any_topic(false);
             let newies = t.subscribe_to_new_events_only();
@@ -88,7 +87,7 @@ pub(crate) mod proofs {
         }
 
         // @props C09 C03
-        #[kani::proof] #[kani::unwind(3)] #[kani::stub(std::hint::spin_loop, noop)]
+        #[kani::proof] #[kani::unwind($unw)] #[kani::stub(std::hint::spin_loop, noop)]
         fn dynamic_cursor_yields_the_next_entry_or_nothing() {
             let (t, n, content) = any_topic(false);
             let sub = t.subscribe_to_joined_old_and_new_events();
@@ -114,7 +113,7 @@ pub(crate) mod proofs {
         }
 
         // @props C09
-        #[kani::proof] #[kani::unwind(3)] #[kani::stub(std::hint::spin_loop, noop)]
+        #[kani::proof] #[kani::unwind($unw)] #[kani::stub(std::hint::spin_loop, noop)]
         fn fixed_cursor_stops_at_its_frozen_tail() {
             let (t, n, content) = any_topic(false);
             let ft: usize = kani::any(); kani::assume(ft <= n);
@@ -142,8 +141,8 @@ pub(crate) mod proofs {
         }
     } )* } }
     log_proofs! {
-        cap2: 2;
-        cap4: 4;
-        cap8: 8;
+        cap2: 2, 4;
+        cap4: 4, 6;
+        cap8: 8, 10;
     }
 }
